@@ -17,6 +17,7 @@ import (
 	"fmt"
 	"reflect"
 	"runtime/debug"
+	"time"
 	"strings"
 
 	"github.com/vimeo/dials"
@@ -191,7 +192,61 @@ func c01Reuse(c *Ctx, n int) {
 				Expected: fmt.Sprintf("{Name:dflt Port:%d Tail:from-source Last:1}", b), Observed: fmt.Sprintf("{Name:%s Port:%d Tail:%s Last:%d}", v.Name, v.Port, v.Tail, v.Last)})
 		}
 		res.Case(fmt.Sprintf("R4|%d|%d", a, b), true, cs4)
+
+		// (v) two watching layers set leaves below the same nil-default pointer to a struct whose members are all
+		// nil-able (its pointerified type is the type itself); then the LATER layer reports a value that no longer sets
+		// its leaf: the leaf reverts to "unset", the earlier layer's leaf stays - nothing of an earlier stack survives
+		cs5 := map[string]any{"stream": "two layers below one pointer to an all-nil-able struct; the later layer stops setting its leaf", "a": a, "b": b}
+		lo := &c01RWatcher{first: fmt.Sprintf(`{"Lim":{"Hosts":["h%d"]}}`, a)}
+		hi := &c01RWatcher{first: fmt.Sprintf(`{"Lim":{"Quotas":{"q":%d}}}`, b)}
+		d6, err6 := dials.Config(ctx, &c01PCfg{Name: "dflt"}, lo, hi)
+		if err6 != nil {
+			res.Add(Finding{Kind: "violation", What: "Config failed: " + err6.Error(), Case: cs5})
+		} else {
+			show := func(v *c01PCfg) string {
+				if v.Lim == nil {
+					return "Lim=nil"
+				}
+				return fmt.Sprintf("Lim={Hosts:%v Quotas:%v}", v.Lim.Hosts, v.Lim.Quotas)
+			}
+			if got, want := show(d6.View()), fmt.Sprintf("Lim={Hosts:[h%d] Quotas:map[q:%d]}", a, b); got != want {
+				res.Add(Finding{Kind: "violation", What: "two layers below one pointer: each leaf is the value of the layer that set it", Case: cs5, Expected: want, Observed: got})
+			}
+			steps := []struct{ w *c01RWatcher; doc, want string }{
+				{hi, `{"Name":"hi-only-name"}`, fmt.Sprintf("Lim={Hosts:[h%d] Quotas:map[]}", a)},
+				{lo, fmt.Sprintf(`{"Lim":{"Hosts":["g%d","g"]}}`, b), fmt.Sprintf("Lim={Hosts:[g%d g] Quotas:map[]}", b)},
+				{hi, fmt.Sprintf(`{"Lim":{"Quotas":{"z":%d}}}`, a), fmt.Sprintf("Lim={Hosts:[g%d g] Quotas:map[z:%d]}", b, a)},
+				{lo, `{}`, fmt.Sprintf("Lim={Hosts:[] Quotas:map[z:%d]}", a)},
+			}
+			for si, st := range steps {
+				val, derr := c01RDecode(st.doc, st.w.typ)
+				if derr != nil {
+					res.Add(Finding{Kind: "violation", What: "harness: decoding the report failed: " + derr.Error(), Case: cs5})
+					break
+				}
+				rc, rcancel := context.WithTimeout(ctx, 5*time.Second)
+				rerr := st.w.args.BlockingReportNewValue(rc, val)
+				rcancel()
+				if rerr != nil {
+					res.Add(Finding{Kind: "violation", What: "blocking report failed: " + rerr.Error(), Case: cs5})
+					break
+				}
+				if got := show(d6.View()); got != st.want {
+					res.Add(Finding{Kind: "violation", What: fmt.Sprintf("re-stack %d: a leaf the reporting layer no longer sets still holds that layer's earlier value (or another layer's leaf was lost)", si+1), Case: cs5, Expected: st.want, Observed: got})
+					break
+				}
+			}
+		}
+		res.Case(fmt.Sprintf("R5|%d|%d", a, b), true, cs5)
 		cancel()
+	}
+}
+
+type c01PCfg struct {
+	Name string
+	Lim  *struct {
+		Hosts  []string
+		Quotas map[string]int
 	}
 }
 
